@@ -21,6 +21,8 @@ TInit == Init /\ tid \in 1..Len(Traces) /\ l = 1 /\ TLCSet(tid, 1)
 
 PostMatches == /\ \A p \in Prims : ver'[p] = Ev.ver[p]
                /\ \A p \in Prims : npaths'[p] = Ev.npaths[p]
+               /\ cver'[Ev.d] = Ev.cv
+               /\ \A h \in Hedgers : pver'[h] = Ev.pvs[h]
 Step(A) == l <= Len(Tr) /\ A /\ PostMatches /\ l' = l + 1 /\ tid' = tid
 
 TNext ==
@@ -28,6 +30,8 @@ TNext ==
   \/ Step(Ev.op \in {"Payoff", "Features", "ListedSpot"} /\ Read(Ev.op, Ev.d, Ev.res))
   \/ Step(Ev.op \in {"ComputeHedge", "ComputePortfolio", "ComputePL"} /\ Compute(Ev.op, Ev.h, Ev.d, Ev.res))
   \/ Step(Ev.op \in {"ComputeLoss", "Price"} /\ SimCompute(Ev.op, Ev.h, Ev.d, Ev.n, Ev.ver[UL[Ev.d]]))
+  \/ Step(Ev.op = "AddClause" /\ AddClause(Ev.d))
+  \/ Step(Ev.op = "Fit" /\ Fit(Ev.h, Ev.d, Ev.n, Ev.ver[UL[Ev.d]], Ev.pvs[Ev.h]))
 TSpec == TInit /\ [][TNext]_tvars
 
 Progress == TLCSet(tid, IF TLCGet(tid) < l THEN l ELSE TLCGet(tid))
